@@ -209,6 +209,49 @@ def analyse(ctx, b):
     return finals
 
 
+def rule_pushadds(ctx, rep, rid="R-C13-pushadds"):
+    """A file named on the command line is either in the project or an error: FileBackedProject::push has no way to say Ok without having
+    added the file.  A `return Ok(())` for files push decides not to read (an extension table, a size limit) makes `echo F` / `tokenize F` /
+    `check GOOD F` succeed for an F that does not parse, and makes the answer depend on the spelling of the file's name."""
+    r = rep.rule(rid, "FileBackedProject::push returns Ok only after it has added the file to `sources` (every Ok return is behind the call that stores the text): "
+                      "a file that is named is never skipped silently", floor=1, floor_what="Ok returns of push")
+    bs = ctx.prog.get("ironplcc::project::FileBackedProject::push")
+    if not bs:
+        rep.error(rid, "FileBackedProject::push not found")
+        return
+    b = bs[0]
+    adders = set()
+    for c in b.calls():
+        cal = c.callee or c.u or ""
+        if cal.endswith("Project>::change_text_document") or cal.endswith("Project::change_text_document"):
+            adders.add(c.bb)
+        if cal.split("::")[-1] in ("insert", "entry") and c.args:
+            p = op_place(c.args[0])
+            rt = b.root(p) if p is not None else None
+            if rt and [x[2] for x in rt[1] if isinstance(x, list) and x[0] == "f"][-1:] == ["sources"]:
+                adders.add(c.bb)
+    oks = [(i, s) for i, j, s in b.all_stmts() if s[0] == "=" and s[1] == [0, []] and s[2][0] == "agg" and isinstance(s[2][1], dict) and s[2][1].get("adt") == "core::result::Result" and s[2][1].get("variant") == "Ok"]
+    where = "%s:%d" % (b.f["file"], b.f["line"])
+    if not adders:
+        r.finding("push|adds-nothing", where, "push calls nothing that stores the file's text in `sources`")
+        return
+    free = b.reachable(0, avoid=adders)
+    k = 0
+    for i, s in sorted(oks, key=lambda x: (x[1][3][0], x[1][3][1])):
+        k += 1
+        if i in free:
+            r.finding("push|Ok without adding#%d" % k, loc_str(b.f, s[3]), "push can return Ok without having stored the file: a named file is skipped silently (its errors with it)")
+        else:
+            r.ok("push|Ok#%d" % k, loc_str(b.f, s[3]), "behind the call that stores the text")
+    # a result handed through from a callee (`self.add(..)` as tail call) is not an Ok built here; the callee is then the function that adds
+    if not oks:
+        tail = [c for c in b.calls() if c.dest == [0, []]]
+        if tail and all(c.bb in adders or not (c.bb in free) for c in tail):
+            r.ok("push|result of the adding call", where)
+        else:
+            r.finding("push|no-Ok-found", where, "cannot find where push builds its Ok result")
+
+
 def run(ctx, rep):
     rep.not_decided += ["directory argument equivalent to the list of its files (file-system dependent)", "argument-order equivalence (see C06)",
                         "that at least one *coded* diagnostic is rendered (codespan output text)"]
@@ -310,6 +353,7 @@ def run(ctx, rep):
                 r_e.finding(inst + "|result-not-returned", loc_str(b.f, cs[0].loc), "the command's Result is not written to main's return place")
             else:
                 r_e.ok(inst, loc_str(b.f, cs[0].loc))
+    rule_pushadds(ctx, rep)
     from rules import c13_dir, c13_nonempty, c13_emitall
     c13_dir.run(ctx, rep)
     c13_nonempty.run(ctx, rep)
